@@ -82,6 +82,16 @@ def mirror_rows(n):
     return out
 
 
+def voronoi_antidiag(rng, N=None):
+    """a Voronoi lattice that contains an edge through a cell corner with crossing (+1,-1) or (-1,+1) (the two components cancel): about one lattice in five"""
+    for _ in range(200):
+        l = voronoi(rng, int(rng.integers(6, 30)) if N is None else N)
+        c = l.edges.crossing
+        if np.any(c[:, 0] * c[:, 1] == -1):
+            return l
+    return l
+
+
 def cluster_voronoi(rng, spread=None):
     """Voronoi lattice of a background point set plus a tight cluster: plaquettes with areas down to 1e-10"""
     spread = 10.0 ** rng.uniform(-5.5, -3.5) if spread is None else spread
@@ -157,7 +167,7 @@ def random_cases(rng, n, max_seeds=40, families=None):
     """n random zoo lattices (name, family, lattice)"""
     out = []
     fams = families or ["vor", "vor-x", "vor-y", "vor-xy", "vor-sub", "vor-vdel", "vor-dual", "vor-trunc",
-                        "vor-iso", "vor-tile", "dyadic", "cut-sub", "trail", "vor-pinch", "vor-cluster"]
+                        "vor-iso", "vor-tile", "dyadic", "cut-sub", "trail", "vor-pinch", "vor-cluster", "vor-antidiag"]
     t = 0
     while len(out) < n:
         fam = fams[t % len(fams)]
@@ -197,6 +207,8 @@ def random_cases(rng, n, max_seeds=40, families=None):
                 c = pinch(rng, l if rng.integers(2) else cut_boundaries(l))
             elif fam == "vor-cluster":
                 c = cluster_voronoi(rng)
+            elif fam == "vor-antidiag":
+                c = voronoi_antidiag(rng, max(N, 6))
             elif fam == "dyadic":
                 c = snap_dyadic(l)
             elif fam == "cut-sub":
